@@ -103,8 +103,14 @@ def run_case(ctx, i, rng):
                 'messages_after_task_left_pool') or []
             if late and kind == 'parented':
                 from vlib.e1.c20 import child_of_late
-                if all(child_of_late(gt, f'{q}/{m}/01', late)
-                       for m, q in missing):
+                hit = [q for m, q in missing
+                       if child_of_late(gt, f'{q}/{m}/01', late)]
+                rest = [q for m, q in missing
+                        if not child_of_late(gt, f'{q}/{m}/01', late)
+                        and classify_missing(case, m, q) == 'parented']
+                # (an instance stuck behind a late message holds the
+                # runahead base: later points cannot run either)
+                if hit and (not rest or min(rest) > min(hit)):
                     kind = 'output-message-after-final-message'
             ctx.violation(
                 f'C01:closure-missing:{kind}',
